@@ -1,10 +1,9 @@
 CONSTANT W = 2
 CONSTANT PMax = 3
 CONSTANT FreshId <- FreshMC
-CONSTANT Gen = FALSE
+CONSTANT Gen = TRUE
 CONSTANT MaxItems = 3
 CONSTANT MaxDepth = 2
 SPECIFICATION Spec
-VIEW View
-INVARIANT P_C19_DeviationExists
+INVARIANT GenHist
 CHECK_DEADLOCK FALSE
